@@ -6,10 +6,13 @@
 package adm
 
 import (
+	"bytes"
 	"context"
 	"encoding/json"
 	"errors"
 	"fmt"
+	"net/http"
+	"net/http/httptest"
 	"sort"
 	"strings"
 	"sync"
@@ -17,8 +20,8 @@ import (
 	"time"
 
 	admissionv1 "k8s.io/api/admission/v1"
-	authenticationv1 "k8s.io/api/authentication/v1"
 	appsv1 "k8s.io/api/apps/v1"
+	authenticationv1 "k8s.io/api/authentication/v1"
 	batchv1 "k8s.io/api/batch/v1"
 	corev1 "k8s.io/api/core/v1"
 	apierrors "k8s.io/apimachinery/pkg/api/errors"
@@ -26,10 +29,10 @@ import (
 	"k8s.io/apimachinery/pkg/runtime"
 	"k8s.io/apimachinery/pkg/runtime/schema"
 	clientscheme "k8s.io/client-go/kubernetes/scheme"
-	webhookserver "k8s.io/pod-security-admission/cmd/webhook/server"
 	"k8s.io/pod-security-admission/admission"
 	admissionapi "k8s.io/pod-security-admission/admission/api"
 	"k8s.io/pod-security-admission/api"
+	webhookserver "k8s.io/pod-security-admission/cmd/webhook/server"
 	"k8s.io/pod-security-admission/metrics"
 	"k8s.io/pod-security-admission/policy"
 	"psaverif/internal/cq"
@@ -853,4 +856,81 @@ func (l *LongLived) ServeObs(ctx context.Context, req *ReqSpec) (obs Obs) {
 		}
 	}
 	return
+}
+
+// ---------------------------------------------------------------- dry-run deadline through the webhook (C12)
+
+// WebDeadlineProbe posts req as an AdmissionReview to HandleValidate (with ?timeout=d when d != nil) on a
+// server around an Admission with logging fakes, and checks the deadline of the context ListPods received
+// against the webhook's timeout: it must be min(configured budget, half of the remaining request time)
+// away, within bounds that only widen with scheduling delays.  Returns "" when fine or when no list happened.
+func WebDeadlineProbe(cfg *CfgSpec, ev policy.Evaluator, req *ReqSpec, w *WorldSpec, d *time.Duration) (problem string, status int, listed bool) {
+	log := &logger{}
+	a, err := NewAdmission(cfg, ev, NullMetrics{}, fakeNS{w, log}, fakeLister{w, log})
+	if err != nil {
+		return "NewAdmission: " + err.Error(), 0, false
+	}
+	srv := webhookserver.VerifNewServer(a)
+	review := admissionv1.AdmissionReview{TypeMeta: metav1.TypeMeta{APIVersion: "admission.k8s.io/v1", Kind: "AdmissionReview"}, Request: WireRequest(cfg, req)}
+	for _, raw := range []*[]byte{&review.Request.Object.Raw, &review.Request.OldObject.Raw} {
+		if *raw != nil && !json.Valid(*raw) {
+			*raw = []byte(`{"apiVersion":"example.test/v9","kind":"NoSuchKind","metadata":{"name":"x"}}`)
+		}
+	}
+	body, _ := json.Marshal(review)
+	url := "/"
+	if d != nil {
+		url = "/?timeout=" + d.String()
+	}
+	hreq := httptest.NewRequest(http.MethodPost, url, bytes.NewReader(body))
+	hreq.Header.Set("Content-Type", "application/json")
+	rec := httptest.NewRecorder()
+	t0 := time.Now()
+	func() {
+		defer func() {
+			if e := recover(); e != nil {
+				problem = fmt.Sprint("HandleValidate panicked: ", e)
+			}
+		}()
+		srv.HandleValidate(rec, hreq)
+	}()
+	if problem != "" {
+		return problem, rec.Code, false
+	}
+	timeout := cfg.Timeout
+	if cfg.MaxPods == 0 {
+		timeout = time.Second
+	}
+	min := func(x, y time.Duration) time.Duration {
+		if x < y {
+			return x
+		}
+		return y
+	}
+	for _, e := range log.events {
+		if e.Kind != "list" {
+			continue
+		}
+		listed = true
+		if !e.HasDL {
+			return "the context handed to ListPods has no deadline", rec.Code, true
+		}
+		lag := e.At.Sub(t0)
+		slack := 2 * time.Millisecond
+		var lo, hi time.Time
+		if d == nil {
+			lo, hi = t0.Add(timeout), e.At.Add(timeout)
+		} else {
+			lo = t0.Add(min(timeout, (*d-lag)/2))
+			hi = e.At.Add(min(timeout, (*d+lag)/2))
+			if cap := e.At.Add(*d); cap.Before(hi) {
+				hi = cap
+			}
+		}
+		if e.Deadline.Before(lo.Add(-slack)) || e.Deadline.After(hi.Add(slack)) {
+			return fmt.Sprintf("through the webhook the ListPods context deadline is %v after the request arrived, outside [%v, %v] (budget %v, ?timeout=%v, list called after %v)",
+				e.Deadline.Sub(t0), lo.Sub(t0), hi.Sub(t0), timeout, d, lag), rec.Code, true
+		}
+	}
+	return "", rec.Code, listed
 }
